@@ -19,7 +19,7 @@ TWO_IMAGES_TAG = "supercell-two-images-one-group"
 ATOLS = [0.05, 0.05, 0.05, 0.05, 0.001, 0.01, 0.2]
 RULE = ("base structures as in C02 (validated planted copies, per-atom perturbation <= atol/16; atol/40 for the hint runs); "
         "atol drawn from {0.001, 0.01, 0.05, 0.2} per base structure; "
-        "relations: plain call (return_positions_and_quats=False); shift by a random vector (|components| <= 2 cell lengths) + fractional wrap; random atom permutation; "
+        "relations: plain call (return_positions_and_quats=False); shift by a random vector (|components| <= 2 cell lengths) + fractional wrap; random atom permutation (a freshly built object, and the SAME Atoms object permuted in place between two searches); "
         "pattern moved by a random rational rotation + translation; ALL hint triples (each entry None or an index) of the "
         "patterns with <= 4 atoms whose given axis points are distinct and whose given orientation point is >= 0.3 A off "
         "the (resolved) axis; 3 other RNG seeds; replication <= 2x1x1 (quick) / <= 2x2x2 (thorough) when every cell width exceeds 2*(diameter+2*atol) (below that two images of one atom can both fit and the relation is mathematically false). Thorough also: "
@@ -119,6 +119,28 @@ def relation(base, rel, param, base_keys=None):
         tb = t_perm(base, param)
         inv = {old: new for new, old in enumerate(param)}
         want = sorted(tuple(sorted(inv[i] for i in k)) for k in base_keys)
+    elif rel == "perm-inplace":
+        # the SAME Atoms object: searched, its atoms exchanged IN PLACE (rows of positions / atom_types / charges /
+        # groups re-ordered inside the existing arrays), searched again
+        tb = t_perm(base, param)
+        inv = {old: new for new, old in enumerate(param)}
+        want = sorted(tuple(sorted(inv[i] for i in k)) for k in base_keys)
+        s_ = fl.mk_structure(base["elems"], base["pos"], base["cell"])
+        p_ = g.mk_pattern(base)
+        first = keys(fl.run_find(s_, p_, base["atol"], seed=1))
+        if first != base_keys:
+            return "the same input searched twice gives %s and %s" % (base_keys[:4], None if first is None else first[:4]), tb, None
+        order = list(param)
+        for name in ("positions", "atom_types", "charges", "groups"):
+            arr = getattr(s_, name)
+            arr[list(range(len(order)))] = arr[order]
+        res = fl.run_find(s_, p_, base["atol"], seed=2)
+        got = keys(res)
+        if got is None:
+            return "the search after the in-place permutation raised %s (%s)" % (res.get("err"), res.get("msg", "")), tb, res
+        if got != want:
+            return "key set after permuting the SAME Atoms object in place: %s  vs  %s" % (got[:4], want[:4]), tb, res
+        return None, tb, res
     elif rel == "pattern":
         tb = t_pattern(base, param[0], param[1])
     elif rel == "hints":
@@ -254,6 +276,9 @@ def run(ctx, oracle_only=False, scale=1):
         tieit = lambda: len(pairs) < n_tie and rng.random() < 0.5
         check_rel(ctx, base, "shift", v, bk, pairs, tieit())
         check_rel(ctx, base, "perm", order, bk, pairs, tieit())
+        order2 = list(order)
+        rng.shuffle(order2)
+        check_rel(ctx, base, "perm-inplace", order2, bk, pairs, False)
         check_rel(ctx, base, "pattern", pm, bk, pairs, tieit())
         for sd in rng.sample(range(3, 10 ** 6), ctx.n(2, 3)):
             check_rel(ctx, base, "seed", sd, bk, pairs, False)
@@ -367,6 +392,7 @@ def mof_files(ctx, rng):
             v, order, pm = rand_params(rng, base)
             check_rel(ctx, base, "shift", v, bk, tags=["mof"])
             check_rel(ctx, base, "perm", order, bk, tags=["mof"])
+            check_rel(ctx, base, "perm-inplace", order, bk, tags=["mof"])
             check_rel(ctx, base, "pattern", pm, bk, tags=["mof"])
             check_rel(ctx, base, "seed", rng.randrange(10 ** 6), bk, tags=["mof"])
         check_rel(ctx, base, "replicate", list(rng.choice([(2, 1, 1), (1, 2, 1), (1, 1, 2)])), bk, tags=["mof"])
